@@ -30,7 +30,8 @@ from .. import core
 from ..gen import rng_for
 
 EXTRA_PROP_MODULES = [("KB.Props.C20Metrics", "KB.C20Metrics"), ("KB.Props.C20Requests", "KB.C20Requests"),
-                      ("KB.Props.C20Native", "KB.C20Native"), ("KB.Props.OrderC19", "KB.OrderC19")]
+                      ("KB.Props.C20Native", "KB.C20Native"), ("KB.Props.OrderC19", "KB.OrderC19"),
+                      ("KB.Props.C04Window", "KB.C04Window")]
 
 TABLE = os.path.join(core.LEAN, "KB", "Generated", "MetricSites.lean")
 SITE_RE = re.compile(
